@@ -66,6 +66,8 @@ pub fn run_case(ctx: &mut Ctx, case: &Value) {
         header: Some(header),
         exp_in: if exp { Some(3600) } else { None },
         repeats: 1 + reissue,
+        // every other re-issuing case marks only some of the paths before the earlier encode() calls
+        late_marks: if reissue >= 1 && paths.len() >= 2 && crate::report::hash_of(&json!(paths)) % 2 == 0 { 1 + (crate::report::hash_of(&json!(paths)) / 2) as usize % (paths.len() - 1) } else { 0 },
     };
     ctx.report.evaluations += 1;
     ctx.report.bump(&format!("issued-after-{}-earlier-encodes", reissue));
